@@ -1,8 +1,9 @@
 """C12 - register dependence equals architectural register overlap.
 
-AArch64: register *names* are symbolic strings (all strings of length <= 2), prefixes a
-symbolic choice over w,x,b,h,s,d,q,v,z,p in both cases -> the solver quantifies over the
-whole name space.  x86: the architectural partition is a finite table written here from
+AArch64: every pair of register names (numbers 0-31, sp/zr in both spellings) and every
+ordered prefix pair in both cases (a first version used symbolic name strings; the
+case-insensitive comparison of the repaired code makes z3's string theory too slow for that).
+x86: the architectural partition is a finite table written here from
 the ISA manuals; the pair of table indices and the case bits are symbolic, each path is
 one concrete run of the real predicate (complete case split, stated as such).
 """
@@ -10,7 +11,7 @@ from osaca.parser import ParserAArch64, ParserX86ATT
 from osaca.parser.register import RegisterOperand
 
 from vp.api import verdict, skip, shard
-from vp.symx import pick, NoTracing
+from vp.symx import pick, NoTracing, native
 
 PX = ParserX86ATT()
 PA = ParserAArch64()
@@ -26,28 +27,48 @@ def _a64_class(p):
     return 2  # predicate
 
 
-def a64_names(pa: int, pb: int, na: str, nb: str, ua: bool, ub: bool) -> bool:
-    """
-    pre: 0 <= pa < 10 and 0 <= pb < 10
-    pre: len(na) <= 2 and len(nb) <= 2
-    post: _
-    """
-    if skip(locals()):
-        return True
-    lo, hi = shard(10)
-    if not (lo <= pa < hi):
-        return True
-    ca = A64_PREFIXES[pick(pa, 10)]
-    cb = A64_PREFIXES[pick(pb, 10)]
+A64_NAMES = [str(n) for n in range(32)] + ["sp", "zr", "SP", "ZR"]
+A64_PAIRS6 = [("x", "w"), ("w", "w"), ("v", "d"), ("z", "q"), ("p", "p"), ("x", "d"), ("p", "z"), ("w", "p")]
+
+
+def _a64_concrete(ca, cb, na, nb, ua, ub):
     ra = RegisterOperand(prefix=ca.upper() if ua else ca, name=na)
     rb = RegisterOperand(prefix=cb.upper() if ub else cb, name=nb)
-    same_name = na == nb
-    expect = same_name and _a64_class(ca) == _a64_class(cb)
+    expect = na.lower() == nb.lower() and _a64_class(ca) == _a64_class(cb)
     got_ab = bool(PA.is_reg_dependend_of(ra, rb))
     got_ba = bool(PA.is_reg_dependend_of(rb, ra))
     got_aa = bool(PA.is_reg_dependend_of(ra, ra))
-    ok = got_ab == expect and got_ba == expect and got_aa
-    return verdict(ok, nontrivial=expect, sample=lambda: [ca, na, cb, nb, expect])
+    return got_ab == expect and got_ba == expect and got_aa, expect, [ca, na, cb, nb, expect]
+
+
+def a64_names(pp: int, ia: int, ib: int) -> bool:
+    """
+    pre: 0 <= pp < 8 and 0 <= ia < 36 and 0 <= ib < 36
+    post: _
+    """
+    # every pair of register names (numbers 0-31, sp/zr in both spellings) x 8 representative
+    # prefix pairs (same class / different class)
+    if skip(locals()):
+        return True
+    lo, hi = shard(36)
+    if not (lo <= ia < hi):
+        return True
+    ca, cb = A64_PAIRS6[pick(pp, 8)]
+    ok, expect, sample = native(_a64_concrete, ca, cb, A64_NAMES[pick(ia, 36)], A64_NAMES[pick(ib, 36)], False, False)
+    return verdict(ok, nontrivial=expect, sample=sample)
+
+
+def a64_prefixes(pa: int, pb: int, same: bool, ua: bool, ub: bool) -> bool:
+    """
+    pre: 0 <= pa < 10 and 0 <= pb < 10
+    post: _
+    """
+    # every ordered prefix pair x upper/lower case x {same number, different number}
+    if skip(locals()):
+        return True
+    ca, cb = A64_PREFIXES[pick(pa, 10)], A64_PREFIXES[pick(pb, 10)]
+    ok, expect, sample = native(_a64_concrete, ca, cb, "7", "7" if same else "17", True if ua else False, True if ub else False)
+    return verdict(ok, nontrivial=expect, sample=sample)
 
 
 def a64_aliases(pa: int, pb: int, ia: int, ib: int) -> bool:
@@ -144,9 +165,8 @@ _FUN = ["osaca.parser.parser_x86att.ParserX86ATT.is_reg_dependend_of", "is_basic
         "osaca.parser.parser_AArch64.ParserAArch64.is_reg_dependend_of", "osaca.parser.register.RegisterOperand.__init__"]
 
 CELLS = {
-    "a64_names": {"fn": a64_names, "bound": "prefix pair over wxbhsdqvzp x case; names = ALL strings of length <= 2 (symbolic)",
-                  "budget": {"quick": 150, "thorough": 600}, "shards": 5},
-    "a64_aliases": {"fn": a64_aliases, "bound": "names sp/zr/0/30/31/SP/ZR x all prefix pairs (case-insensitive aliases)", "budget": {"quick": 120, "thorough": 300}},
+    "a64_names": {"fn": a64_names, "bound": "all 36 x 36 name pairs (0-31, sp, zr, SP, ZR) x 8 representative prefix pairs", "budget": {"quick": 150, "thorough": 600}, "shards": 12},
+    "a64_prefixes": {"fn": a64_prefixes, "bound": "all 10 x 10 ordered prefix pairs x case x {same, different number}", "budget": {"quick": 150, "thorough": 600}},
     "x86_pairs": {"fn": x86_pairs, "tiers": ("quick",), "bound": "95 names (16 GPR families all widths; vector numbers 0,1,9,10,15,16,31; mm/k 0,1,7) x 95 x case bits",
                   "budget": {"quick": 170}, "shards": 12},
     "x86_pairs_full": {"fn": x86_pairs_full, "tiers": ("thorough",), "bound": "all 180 names x 180 x 4 case combinations", "budget": {"thorough": 900}, "shards": 16},
@@ -154,8 +174,8 @@ CELLS = {
 
 META = {
     "functions": _FUN,
-    "bounds": "AArch64: every prefix pair, names symbolic strings len<=2 plus sp/zr aliases; x86: finite architectural table (quick 95 names, thorough 180), both orders, both cases",
-    "outside": "x86 names outside the table (e.g. segment registers, st(i)); AArch64 names longer than 2 characters",
+    "bounds": "AArch64: every name pair over 0-31/sp/zr/SP/ZR x representative prefix pairs, every ordered prefix pair x case; x86: finite architectural table (quick 95 names, thorough 180), both orders, both cases",
+    "outside": "x86 names outside the table (e.g. segment registers, st(i)); AArch64 names longer than 2 characters or containing non-digits other than the sp/zr aliases",
     "assumptions": ["transitivity is not run as its own cell: the pair cells show relation == 'same family' of a partition, which is an equivalence",
                     "architectural partition written from the ISA manuals in harness/c12_regdep.py",
                     "x86 cells: each path is a concrete run; the solver only performs the complete case split"],
